@@ -205,6 +205,8 @@ pub fn alphabet(thorough: bool) -> Vec<Call> {
         Call::W(T::U(UINT, 5), Opt::Default), Call::W(T::U(UINT, 300), Opt::Width(2)),
         Call::W(T::I(INT, -3), Opt::Default), Call::W(T::F(FLT, 1.5), Opt::Default),
         Call::W(T::B(BIN, vec![7; 127]), Opt::Default), Call::W(T::B(BIN, vec![7; 127]), Opt::Width(1)),
+        // inside a master opened with width 1 these make its content exactly 127 (the reserved all-ones size: must be refused) and 126 (the largest that fits)
+        Call::W(T::B(BIN, vec![7; 125]), Opt::Default), Call::W(T::B(BIN, vec![7; 124]), Opt::Default),
         Call::W(T::U(CHILD, 7), Opt::Default),
         Call::W(T::M(PARENT, Master::Full(vec![T::U(CHILD, 1)])), Opt::Default),
         Call::W(T::M(PARENT, Master::Full(vec![T::U(CHILD, 1), T::U(UINT, 2)])), Opt::Default),
@@ -272,6 +274,9 @@ fn step(table: &bs::Table, w: &mut TagWriter<ScriptDest>, call: &Call, h: &mut H
         }
         (Ok(()), Exp::Rejected(why)) => {
             let why = *why;
+            if why.starts_with("size") {
+                rep.clause("C09: an explicit size-field width is honoured exactly - a size that width cannot carry is refused, never written in another width", false, || format!("{} expected-rejection={}", ctx(h), why));
+            }
             rep.clause("C11w/C19: the writer rejects: tag not allowed under the open chain / unrepresentable size / unknown size on non-master / malformed raw id / mismatched End / invalid child of Full", false, || format!("{} expected-rejection={}", ctx(h), why));
             h.conformant = false;
         }
@@ -474,6 +479,17 @@ pub fn unit_payload() -> Report {
             let mut doc = vec![bs::ROOT as u8, 0x86, bs::FLT as u8, 0x84]; doc.extend_from_slice(&n.to_be_bytes());
             fix(doc, format!("f32 bits {:08x}", n.to_bits()), &mut rep);
         }
+    }
+    // strings: trailing / embedded NULs and multi-byte characters are payload like any other byte (C01 write -> read, C02 read -> write -> read)
+    for st in ["", "a", "a\0", "a\0\0", "\0", "\0\0\0", "é\0\0", "a\0b", "ab "] {
+        let pl = st.as_bytes();
+        let mut doc = vec![bs::ROOT as u8, 0x80 + 2 + pl.len() as u8, bs::STR as u8, 0x80 + pl.len() as u8]; doc.extend_from_slice(pl);
+        fix(doc, format!("string {:?}", st), &mut rep);
+        let mut w = TagWriter::new(ScriptDest::default());
+        let ok = w.write(&T::M(bs::ROOT, Master::Start)).is_ok() && w.write(&T::S(bs::STR, st.to_string())).is_ok() && w.write(&T::M(bs::ROOT, Master::End)).is_ok();
+        let (items, err) = read_back(&w.dest.data, false);
+        rep.cases += 1; rep.nontrivial += 1;
+        rep.clause("C01/C16: the element reads back (strict iterator) with the identical value", ok && err.is_none() && items.len() == 3 && rf::tag_eq(&items[1], &T::S(bs::STR, st.to_string())), || format!("string {:?} bytes={} got=[{}] err={:?}", st, rf::hex(&w.dest.data), items.iter().map(rf::show).collect::<Vec<_>>().join(","), err));
     }
     for k in (0..64u32).step_by(7) { for d in [-1i128, 0, 1] {
         let v = (1i128 << k) + d;
